@@ -77,7 +77,19 @@ class _OsProxy:
         return _REAL_OS.fstat(fd)
 
     def __getattr__(self, name):
-        return getattr(_REAL_OS, name)
+        val = getattr(_REAL_OS, name)
+        if not callable(val) or name in ('strerror', 'fspath', 'fsencode', 'fsdecode', 'getpid'):
+            return val
+        sim = self._sim
+
+        def routed(*a, **k):
+            # a descriptor of the simulated temporary file must never reach the real kernel (the number may
+            # belong to some real descriptor of this process): route it to the simulated os, which raises
+            # Unsimulated for calls it does not model
+            if a and isinstance(a[0], int) and not isinstance(a[0], bool) and a[0] in sim.fs.fds:
+                return getattr(simfs.SimOS(sim), name)(*a, **k)
+            return val(*a, **k)
+        return routed
 
 
 class _TempFactory:
